@@ -66,6 +66,7 @@ type tarReadData struct {
 	links       map[string][]string
 	processed   map[string]bool
 	finish      []func() error
+	finishPush  map[digest.Digest]func() error
 	// data processed from various handlers
 	manifests           map[digest.Digest]manifest.Manifest
 	ociIndex            v1.Index
@@ -1287,12 +1288,13 @@ func (rc *RegClient) ImageImport(ctx context.Context, r ref.Ref, rs io.ReadSeeke
 		ctx = warning.NewContext(ctx, &warning.Warning{Hook: warning.DefaultHook()})
 	}
 	trd := &tarReadData{
-		name:      opt.importName,
-		handlers:  map[string]tarFileHandler{},
-		links:     map[string][]string{},
-		processed: map[string]bool{},
-		finish:    []func() error{},
-		manifests: map[digest.Digest]manifest.Manifest{},
+		name:       opt.importName,
+		handlers:   map[string]tarFileHandler{},
+		links:      map[string][]string{},
+		processed:  map[string]bool{},
+		finish:     []func() error{},
+		finishPush: map[digest.Digest]func() error{},
+		manifests:  map[digest.Digest]manifest.Manifest{},
 	}
 
 	// add handler for oci-layout, index.json, and manifest.json
@@ -1660,7 +1662,26 @@ func (rc *RegClient) imageImportOCIHandleManifest(ctx context.Context, r ref.Ref
 	}
 	// add a finish func to push the manifest, this gets skipped for the index.json
 	if push {
-		trd.finish = append(trd.finish, func() error {
+		done := false
+		finishPush := func() error {
+			if done {
+				return nil
+			}
+			done = true
+			// a nested manifest shared with a manifest list that was read earlier is not yet pushed, push those first
+			if mi, ok := m.(manifest.Indexer); ok && m.IsList() {
+				dl, err := mi.GetManifestList()
+				if err != nil {
+					return err
+				}
+				for _, d := range dl {
+					if fn, ok := trd.finishPush[d.Digest]; ok {
+						if err := fn(); err != nil {
+							return err
+						}
+					}
+				}
+			}
 			mRef := r.SetDigest(m.GetDescriptor().Digest.String())
 			_, err := rc.ManifestHead(ctx, mRef)
 			if err == nil {
@@ -1671,7 +1692,9 @@ func (rc *RegClient) imageImportOCIHandleManifest(ctx context.Context, r ref.Ref
 				opts = append(opts, WithManifestChild())
 			}
 			return rc.ManifestPut(ctx, mRef, m, opts...)
-		})
+		}
+		trd.finishPush[m.GetDescriptor().Digest] = finishPush
+		trd.finish = append(trd.finish, finishPush)
 	}
 	trd.handleAdded = true
 	return nil
